@@ -139,6 +139,7 @@ type abortPath struct {
 
 // goPanic is a Go-level panic propagating through interpreted frames.
 type goPanic struct {
+	pos   string
 	val   Value
 	msg   string // for runtime errors
 	rt    bool
@@ -183,6 +184,8 @@ type Engine struct {
 	lastModelPC int
 	curPosTok token.Pos
 	deferDepth int
+	tolerantInit bool
+	uniqueTab []uniqueEnt
 	killing   bool
 	pendingAbort *abortPath
 	deadlock  bool
@@ -371,6 +374,20 @@ func newEngine(prog *ssa.Program, cfg *Config, wq *workQueue) (*Engine, error) {
 		}()
 		e.extraCtx = map[string]interface{}{}
 		e.cur = &gor{id: 0}
+		// standard-library packages first (tolerant: an initialiser the engine cannot
+		// execute leaves its variable zero), then the harness' own list (strict)
+		all := append([]string{}, stdInit...)
+		all = append(all, cfg.InitPkgs...)
+		cfg2 := *cfg
+		cfg2.InitPkgs = all
+		e.cfg = &cfg2
+		for _, p := range stdInit {
+			if pkg := e.findPkg(p); pkg != nil {
+				e.tolerantInit = true
+				e.runInit(pkg)
+				e.tolerantInit = false
+			}
+		}
 		for _, p := range cfg.InitPkgs {
 			pkg := e.findPkg(p)
 			if pkg == nil {
@@ -387,12 +404,19 @@ func newEngine(prog *ssa.Program, cfg *Config, wq *workQueue) (*Engine, error) {
 	return e, nil
 }
 
+// stdInit: library packages whose package initialiser is executed once per worker.
+var stdInit = []string{
+	"internal/oserror", "unicode/utf8", "unicode", "math/bits", "strconv", "io", "io/fs", "strings", "bytes", "bufio",
+	"encoding/binary", "encoding/hex", "encoding/base64", "sort", "path", "path/filepath", "syscall", "time", "os",
+	"net/netip", "net", "context", "net/textproto", "crypto/md5", "hash/crc32", "text/tabwriter",
+}
+
 func fmtPanic(r interface{}) string {
 	switch x := r.(type) {
 	case abortPath:
 		return x.kind + ": " + x.msg
 	case *goPanic:
-		return "go panic: " + x.msg
+		return "go panic: " + x.msg + " @ " + strings.Join(x.stack, " <- ")
 	}
 	return fmt.Sprint(r)
 }
@@ -660,7 +684,7 @@ func (e *Engine) check(fail *smt.Term, msg string) {
 }
 
 func (e *Engine) goPanicRT(msg string) {
-	panic(&goPanic{msg: "runtime error: " + msg, rt: true, stack: e.stackNames(), val: Iface{T: rtErrType, V: Str{S: "runtime error: " + msg}}})
+	panic(&goPanic{pos: e.curPosStr(), msg: "runtime error: " + msg, rt: true, stack: e.stackNames(), val: Iface{T: rtErrType, V: Str{S: "runtime error: " + msg}}})
 }
 
 var rtErrType = types.NewNamed(types.NewTypeName(0, nil, "runtime.Error(gosx)", nil), types.Typ[types.String], nil)
